@@ -6,10 +6,18 @@
     cycles pass through a referential (schema, not uri-like) declaration, and rejects the
     others — so function cycles, content cycles and plain alias cycles are errors; the shared
     [inbounds] buffer of the code is harmless.
-    Carried by the correspondence (not proved): the evaluator side — each recursion point is
-    a $ref to a component, distinct instantiations get distinct components (C09 monitors and
-    the relocation test), evaluation of accepted cyclic programs terminates. *)
+    Evaluator side, on the evaluator model (Model/Eval.v, tied to eval.rs on every run):
+    evaluation of a stratified first-order program -- every cycle of uses passes through a
+    declaration that the evaluator memoises in its reference table, which is what the check
+    above guarantees of accepted programs and what the tie re-checks on each of them -- never
+    runs out of an explicit amount of fuel ([C09_evaluation_is_finite]); in the resulting Spec
+    every recursion point is a reference to an entry of the reference table
+    ([C09_recursion_points_resolve]); a program with an uncut cycle exhausts any fuel (witness).
+    Carried by the monitors (not proved): distinct instantiations get distinct components
+    (instantiation monitor, relocation test); the link between the graph of [cycles_check] and
+    [Strat.stratified] is the tie, not a theorem. *)
 From Oal Require Import Cycles CyclesProofs.
+From Oal Require Eval Strat TermProofs ClosureProofs.
 
 Theorem C09_cycles_check_spec :
   forall referential scc, scc_spec scc -> forall fuel ns g marks,
@@ -54,3 +62,26 @@ Proof.
   exists 0%N. eapply walkP_cons; [left; reflexivity|reflexivity|].
   apply walkP_one; [right; left; reflexivity|reflexivity].
 Qed.
+
+(** * the evaluator side *)
+Theorem C09_evaluation_is_finite : forall P rk R Z rs,
+  Strat.strat_okb P rk R Z rs = true ->
+  forall n, TermProofs.B R Z (TermProofs.U P Eval.st0) R Z <= n -> Eval.eval_program false P n rs <> Eval.Fuel.
+Proof. exact TermProofs.program_terminates. Qed.
+Print Assumptions C09_evaluation_is_finite.
+
+Theorem C09_recursion_points_resolve : forall P n rs rels table,
+  Eval.eval_program false P n rs = Eval.Ok (rels, table) ->
+  (forall k, In k (flat_map ClosureProofs.ks_relation rels) -> In k (map fst table)) /\
+  (forall k sc, In (k, sc) table -> forall k', In k' (ClosureProofs.ks_schema sc) -> In k' (map fst table)).
+Proof. exact ClosureProofs.spec_closed. Qed.
+Print Assumptions C09_recursion_points_resolve.
+
+Theorem C09_uncut_cycle_loops_refuted :
+  Strat.stratified TermProofs.ex_loop TermProofs.ex_loop_rs = false /\
+  Eval.eval_program false TermProofs.ex_loop 200 TermProofs.ex_loop_rs = Eval.Fuel.
+Proof. exact TermProofs.ex_loop_not_stratified. Qed.
+Print Assumptions C09_uncut_cycle_loops_refuted.
+
+Example C09_recursive_program_is_stratified : Strat.stratified ClosureProofs.ex_rec_P ClosureProofs.ex_rec_rs = true.
+Proof. exact TermProofs.ex_rec_stratified. Qed.
